@@ -2,6 +2,7 @@
   C12 — the EVO well-selection string is a faithful, decodable bitmap.
 -/
 import Robotools.Model.EvoCmd
+import Robotools.Proofs.SelectionLemmas
 namespace Robotools.C12
 open Robotools
 
@@ -11,34 +12,44 @@ open Robotools
 theorem decode_encode (rows cols : Nat) (bits : List Bool)
     (hr : rows ≤ 255) (hc : cols ≤ 255) (hlen : bits.length = rows * cols) :
     decodeSelection (encodeSelection rows cols bits) = some (rows, cols, bits) := by
-  sorry
+  exact decodeSelection_encodeSelection rows cols bits hr hc hlen
 
 /-- Distinct selections (of the same labware) give distinct strings. -/
 theorem encode_inj (rows cols : Nat) (b₁ b₂ : List Bool)
     (hr : rows ≤ 255) (hc : cols ≤ 255) (h₁ : b₁.length = rows * cols) (h₂ : b₂.length = rows * cols)
     (h : encodeSelection rows cols b₁ = encodeSelection rows cols b₂) : b₁ = b₂ := by
-  sorry
+  have d₁ := decodeSelection_encodeSelection rows cols b₁ hr hc h₁
+  have d₂ := decodeSelection_encodeSelection rows cols b₂ hr hc h₂
+  rw [h, d₂] at d₁
+  simpa using d₁.symm
 
 /-- The string has 4 + ⌈R*C/7⌉ characters. -/
 theorem encode_length (rows cols : Nat) (bits : List Bool)
     (hr : rows ≤ 255) (hc : cols ≤ 255) (hlen : bits.length = rows * cols) :
     (encodeSelection rows cols bits).length = 4 + (rows * cols + 6) / 7 := by
-  sorry
+  rw [encodeSelection_length rows cols bits hr hc, hlen]
 
 /-- Unused padding bits are zero: every bitmap character encodes a value below 2^(number of wells
     it covers), in particular the last one. -/
 theorem padding_zero (bits : List Bool) (i : Nat) (c : Char) (h : (encodeBits bits)[i]? = some c) :
     c.toNat - 48 < 2 ^ (min 7 (bits.length - 7 * i)) ∧ 48 ≤ c.toNat := by
-  sorry
+  obtain ⟨hi, hc⟩ := encodeBits_getElem? bits i c h
+  subst hc
+  have hlt := bitsToNat_lt ((bits.drop (7 * i)).take 7)
+  have hlen : ((bits.drop (7 * i)).take 7).length = min 7 (bits.length - 7 * i) := by
+    simp [List.length_take, List.length_drop]
+  rw [hlen] at hlt
+  rw [chunk_toNat]
+  exact ⟨by omega, by omega⟩
 
 /-- `selectionBits` marks exactly the selected wells, read column-major. -/
 theorem selectionBits_spec (rows cols : Nat) (sel : List (Nat × Nat)) (x y : Nat) (hx : x < cols) (hy : y < rows) :
     (selectionBits rows cols sel)[x * rows + y]? = some (sel.contains (y, x)) := by
-  sorry
+  exact selectionBits_getElem? rows cols sel x y hx hy
 
 theorem selectionBits_length (rows cols : Nat) (sel : List (Nat × Nat)) :
     (selectionBits rows cols sel).length = rows * cols := by
-  sorry
+  exact selectionBits_length' rows cols sel
 
 example : String.ofList (encodeSelection 8 12 (selectionBits 8 12 [(0, 0), (1, 0)])) = "0C0830000000000000" := by
   decide +kernel
